@@ -18,7 +18,7 @@ META = {
     "text": "TLC enumerates the complete class product (cap set/unset x codec token {none,zstd,gzip,identity,unknown,"
             "disabled} x wire size vs cap x decoded size vs cap {below,at,above,bomb} x size declaration {honest,"
             "absent,lying low,lying high within cap,lying high over cap} x integrity {ok,corrupt,truncated} x one/many "
-            "frames x transfer "
+            "frames x route {unary,init,exchange,upload-url} x method name {plain, health-prefixed, health} x transfer "
             "{Content-Length, chunked}) restricted to the consistent rows, with the set of admissible outcomes per row "
             "and the table-sanity invariants; each row is concretised into several real requests (exact boundary sizes "
             "cap-1/cap/cap+1 obtained by padding zstd frames with skippable frames and gzip members with FEXTRA, "
